@@ -40,7 +40,16 @@ let dump_dstate (s : dstate) =
     "peexp " ^ cat "," (List.map si s.d_peexp);
     "fwd " ^ cat "," (sorted (List.map (fun (a, b) -> si a ^ ">" ^ si b) s.d_fwd)) ]
 
+let dump_rules rules =
+  let l xs = cat "," (List.map si (sorted xs)) in
+  cat ";" (sorted (List.map (fun r -> l r.ru_int ^ "/" ^ l r.ru_ext ^ "/" ^ l r.ru_access) rules))
+
 let handle = function
+  | "requests" ->
+    let info = Array.of_list (listn (fun () -> let m = next_bool () in let r = next_bool () in { q_in_module = m; q_has_referent = r })) in
+    let rs = listn (fun () -> let a = nn () in let b = nn () in (a, b)) in
+    let (st, outs) = requests (fun s -> info.(i_of s)) rs in
+    "outs " ^ cat "," (List.map (fun b -> if b then "1" else "0") outs) ^ " | recorded " ^ cat "," (List.map (fun (a, b) -> si a ^ ">" ^ si b) st)
   | "delete" ->
     let s = read_dstate () in
     let req = listn (fun () -> let x = nn () in let f = next_bool () in (x, f)) in
@@ -48,7 +57,9 @@ let handle = function
   | "retarget" ->
     let syms = listn (fun () -> let id = nn () in let r = onat () in let d = next_bool () in let c = next_bool () in
                        (id, { s_ref = r; s_defined = d; s_cfgnode = c })) in
-    let rules = listn (fun () -> let i = listn nn in let e = listn nn in let a = listn nn in { ru_int = i; ru_ext = e; ru_access = a }) in
+    let isa = nn () in let fmt = nn () in let pie = next_bool () in
+    let rules = abi_rules isa fmt pie in
+    let pre = "rules " ^ dump_rules rules ^ " | " in
     let rmap = listn (fun () -> let a = nn () in let b = nn () in (a, b)) in
     let sites = listn (fun () -> let iv = nn () in let off = next_z () in let c = next_bool () in let sy = listn nn in let ad = next_z () in
                         let at = listn nn in let nb = nn () in let blk = onat () in let bc = next_bool () in let acc = nn () in
@@ -59,9 +70,9 @@ let handle = function
     let edges = listn (fun () -> let a = nn () in let b = nn () in let y = nn () in ((a, b), y)) in
     let st = { r_sites = sites; r_cfi = cfi; r_fwd = fwd; r_edges = edges } in
     (match retarget_symbol_uses syms rules rmap st with
-     | Err e -> "err " ^ err_name e
+     | Err e -> pre ^ "err " ^ err_name e
      | Ok s' ->
-       cat " | " [
+       pre ^ cat " | " [
          "sites " ^ cat ";" (sorted (List.map (fun x -> let (iv, off) = x.xs_key in
              si iv ^ "+" ^ str_of_z off ^ ":" ^ (if x.xs_expr.x_const then "C" else "A") ^ cat "," (List.map si x.xs_expr.x_syms) ^ "+" ^ str_of_z x.xs_expr.x_addend ^
              "{" ^ cat "," (sorted (List.map si x.xs_expr.x_attrs)) ^ "}") s'.r_sites));
